@@ -60,7 +60,9 @@ def fmt_names(ctx, expr):
     return [n.id for n in ast.walk(expr) if isinstance(n, ast.Name) and n.id.endswith('_FORMAT')]
 
 
-def check(ctx):
+def ejson_agreement(ctx):
+    """R16 + R17 on the extended-JSON encoder / decoder pair (also run by C02: what unstream / a reused checkpoint emits must
+    fit the stored descriptor, which it does only if every tagged value is decoded back to its type)."""
     run, repo, res = ctx.run, ctx.repo, ctx.res
     enc = repo.cls(EJ + ':CommonJSONEncoder')
     dec = repo.cls(EJ + ':CommonJSONDecoder')
@@ -149,6 +151,12 @@ def check(ctx):
                       any(a for a, _ in offs), 'R16', where(repo, payload), d.qualname,
                       'offset None for naive datetimes', 'a naive datetime does not round-trip as naive')
     abstypes.r17_isinstance_order(ctx, [d], floor=1)
+    return enc, dec, d, h, et, dt
+
+
+def check(ctx):
+    run, repo, res = ctx.run, ctx.repo, ctx.res
+    enc, dec, d, h, et, dt = ejson_agreement(ctx)
 
     run.rule('R24', 'TD-SECONDS: the UTC offset of a datetime is converted to seconds with total_seconds(); timedelta.seconds is '
                     'in [0, 86400) and drops the day component, so negative offsets (days=-1) come back 24h off')
@@ -188,44 +196,8 @@ def check(ctx):
     run.check(isinstance(rets[-1].value, ast.Name) and rets[-1].value.id == h.params[1], 'R16', h.where, h.qualname,
               'untagged objects are returned unchanged', 'object_hook alters plain objects')
 
-    run.rule('CKP', 'CHECKPOINT-REPLACES: when the file exists the chain is the reader alone and does not depend on the preceding '
-                    'links; otherwise it is the preceding links followed by the writer; the parent flow hands the preceding links '
-                    'over and keeps only the checkpoint')
-    ck = repo.cls('dataflows.processors.checkpoint:checkpoint')
     from rules import commits as _commits
-    from sa.pattern import match_expr as _me
-    pc, cases = _commits.checkpoint_chain_cases(ctx)
-    yes = [v for pol, a, v, _ in cases if pol is True]
-    no = [v for pol, a, v, _ in cases if pol is False]
-    if any(pol is None for pol, a, v, _ in cases):
-        raise AnalysisError('checkpoint._preprocess_chain: a path does not depend on the exists-test')
-    ok = bool(yes) and all(v is not None and (_me('(unstream(self.filename),)', v) is not None or
-                                               _me('[unstream(self.filename)]', v) is not None) for v in yes)
-    run.check(ok, 'CKP', pc.where, pc.qualname, 'exists: return (unstream(self.filename),)',
-              'with an existing checkpoint the steps before it are still part of the chain (they would run again)')
-    ok = bool(no)
-    for v in no:
-        good = isinstance(v, ast.Call) and u(v.func) in ('itertools.chain', 'chain') and len(v.args) == 2 and \
-            pseudo(v.args[0]) == 'self.chain' and isinstance(v.args[1], (ast.Tuple, ast.List)) and v.args[1].elts and \
-            _me('stream(self.filename)', v.args[1].elts[0]) is not None
-        ok = ok and good
-    run.check(ok, 'CKP', pc.where, pc.qualname, 'else: return chain(self.chain, (stream(self.filename), notifier))',
-              'on the first run the writer is not placed right after the preceding links')
-    hf = ck.methods['handle_flow_checkpoint']
-    body = u(hf.node)
-    rets = [n for n in own_nodes(hf.node) if isinstance(n, ast.Return)]
-    p = hf.params[1]
-    ok = len(rets) == 1 and u(rets[0].value) == '[self]' and \
-        any(isinstance(n, ast.Assign) and pseudo(n.targets[0]) == 'self.chain' and p in names_in(n.value) and
-            'self.chain' in u(n.value) for n in own_nodes(hf.node))
-    run.check(ok, 'CKP', hf.where, hf.qualname, 'self.chain = chain(self.chain, parent_chain); return [self]',
-              'the links before the checkpoint stay in the parent flow (they run even when the checkpoint exists) or are lost')
-    fl = repo.cls('dataflows.base.flow:Flow').methods['_preprocess_chain']
-    ok = any(isinstance(n, ast.Assign) and isinstance(n.value, ast.Call) and isinstance(n.value.func, ast.Attribute) and
-             n.value.func.attr == 'handle_flow_checkpoint' and pseudo(n.targets[0]) in [pseudo(a) for a in n.value.args]
-             for n in own_nodes(fl.node))
-    run.check(ok, 'CKP', fl.where, fl.qualname, 'links = link.handle_flow_checkpoint(links)',
-              'Flow does not hand the preceding links to the checkpoint')
+    _commits.checkpoint_replaces(ctx)
 
     run.rule('R25', 'FRAMING: the writer emits one single-line JSON document plus a newline per object and the reader reads line by '
                     'line, ends a resource at the first blank line and produces one reader per resource of the stored descriptor')
